@@ -12,6 +12,7 @@ import (
 	"sync"
 	"time"
 
+	"verifharness/refmodel"
 	"verifharness/simnet"
 )
 
@@ -240,6 +241,8 @@ func stdReturn(id [20]byte, nodes []SimContact, token *string) BV {
 type friendly struct {
 	Addrs []*net.UDPAddr
 	IDs   [][20]byte
+	// Value, if set, is an encoded immutable BEP 44 value every node holds: get replies carry it
+	Value string
 }
 
 func friendlyAddr(i int) *net.UDPAddr {
@@ -272,7 +275,12 @@ func addFriendlyNet(n1 *SimNet, n int, silent func(i int, q SimQuery) bool) *fri
 					cs = append(cs, SimContact{f.IDs[k], f.Addrs[k]})
 				}
 				tok := fmt.Sprintf("ftok%d", i)
-				return []SimReply{{Data: mkResponse(t, stdReturn(f.IDs[i], cs, &tok))}}
+				r := stdReturn(f.IDs[i], cs, &tok)
+				if f.Value != "" && q.Method == "get" {
+					v, _, _ := refmodel.Parse([]byte(f.Value))
+					r = r.Set("v", v)
+				}
+				return []SimReply{{Data: mkResponse(t, r)}}
 			default:
 				return []SimReply{{Data: mkResponse(t, stdReturn(f.IDs[i], nil, nil))}}
 			}
